@@ -9,7 +9,7 @@ RULE = ('inputs: corpus, g2/g3 mixed junk, grammar scripts with random layout; e
 ASSUMPTIONS = ['splitter model tied by S-SPLIT (sampled) and S-CSL (exhaustive)', 'lexer model tied by S-LEX/S-RE (C01)']
 ALSO_THEOREMS = [('SqlProps.C02', ['Sql.C02.split_is_stripped_parse', 'Sql.C02.parse_fails_only_where_split_fails_or_depth'])]
 PARTIAL = ['split() == stripped str() of parse() statements is a theorem over the model (C02.split_is_stripped_parse; needs the grouping model, tied by S-TREE in C02) and compared on the real code here',
-           're-split clause: sampled on lex-stable pieces; context-sensitive lexemes are known findings KF-C04-1/2']
+           're-split clause: theorem at token level (resplit_tokens) and at text level under the decidable hypothesis LexStable (resplit_text); pieces that are not LexStable (context-sensitive lexemes) are known finding KF-C04-1']
 
 
 def lex_stable(text, piece, stmt_tokens):
